@@ -182,7 +182,7 @@ def writer_token(r, ctx):
             r.check("take(self.writer)" in a0, "%s/WriteTask-uses-taken-writer" % nm, c.loc(), "WriteTask built from the taken writer")
     # replace_and_pop: sender param ends in a WriteTask or back in self.writer
     news = [c for c in pop.calls if c.is_method("write_fut::WriteTask", "new")]
-    back = [(i, line) for i, j, rv, line in field_writes(pop, UP, "writer") if "Option::Some(tuple(sender, buffer))" == describe_rvalue(pop, rv)]
+    back = [(i, line) for i, j, p, rv, line in pop.assigns() if p[1] and describe_place(pop, p).endswith("writer") and "Option::Some(tuple(sender, buffer))" == describe_rvalue(pop, rv)]
     ok, wit = pop.must_pass([0], {c.block for c in news} | {i for i, _ in back})
     r.check(ok and len(back) == 1, "replace_and_pop/sender=>task-or-stored", where(pop), "the returned sender is used for the next WriteTask or stored back in self.writer on every path",
             "the returned sender can be dropped: %s" % wit)
